@@ -66,11 +66,11 @@ for rd,seeddir,fixdir,conf,runs in rounds:
             meta.update({'round':rd,'rebased_onto_current_tree':rebased,'confirmation':c,'check_result':r,
                          'caught':caught,'contract_written_after_seed_was_seen':AFTER[rd].get(key,'no record: the catching obligation predates my look at this seed as far as the session log shows')})
             json.dump(meta,open(dst+'/meta.json','w'),indent=1)
-            where=meta.get('summary','').split(':')[0][:70]
+            where=meta.get('summary','').split(':')[0][:70].replace('|','/')
             first=' '.join(re.findall(r'[\w#@.$()*\-~/]+\.json',r)[:2])[:110]
             meta['first_run']=FIRST[rd].get(key,'' if rd!='r1' else 'not recorded for round 1')
             json.dump(meta,open(dst+'/meta.json','w'),indent=1)
-            lines.append(f"| {rd} {key} | {where} | yes{' (rebased)' if rebased else ''} | {FIRST[rd].get(key,'')[:60]} | {'CAUGHT' if caught else 'MISSED'} | {first} | {AFTER[rd].get(key,'– (caught as the checks stood)' if rd!='r1' else 'not recorded otherwise')} |")
+            lines.append(f"| {rd} {key} | {where} | yes{' (rebased)' if rebased else ''} | {FIRST[rd].get(key,'')[:60].replace('|','/')} | {'CAUGHT' if caught else 'MISSED'} | {first} | {AFTER[rd].get(key,'– (caught as the checks stood)' if rd!='r1' else 'not recorded otherwise')} |")
 # summary per round
 summ=['','## Summary','','| round | kept (confirmed) | reported by the current checks | reported on the first run, before any strengthening for that seed |','|---|---|---|---|']
 for rd in ('r1','r2','r3','r4'):
